@@ -17,7 +17,7 @@
 // flip to 1 once var_opt_union::operator=(const&) compiles (proposed patch C19-3): the copy-assignment steps of the
 // varopt-union families are then executed instead of being reported
 #ifndef C19_VAROPT_UNION_COPY_ASSIGN_COMPILES
-#define C19_VAROPT_UNION_COPY_ASSIGN_COMPILES 0
+#define C19_VAROPT_UNION_COPY_ASSIGN_COMPILES 1
 #endif
 
 namespace vf19 {
